@@ -89,15 +89,57 @@ impl AutoReloader {
     /// returned from this method.
     pub fn acquire_env(&self) -> Result<EnvironmentGuard<'_>, Error> {
         let mut mutex_guard = self.cached_env.lock().unwrap();
+        #[cfg(feature = "verif_hooks")]
+        verif::yield_point("locked");
         if mutex_guard.is_none() || self.notifier.should_reload() {
+            #[cfg(feature = "verif_hooks")]
+            verif::yield_point("after_check");
             let weak_notifier = self.notifier.prepare_and_mark_reload()?;
+            #[cfg(feature = "verif_hooks")]
+            verif::yield_point("after_reset");
             if mutex_guard.is_none() || !self.notifier.fast_reload() {
                 *mutex_guard = Some((self.env_creator)(weak_notifier)?);
             } else {
                 mutex_guard.as_mut().unwrap().clear_templates();
             }
+            #[cfg(feature = "verif_hooks")]
+            verif::yield_point("after_rebuild");
         }
+        #[cfg(feature = "verif_hooks")]
+        verif::yield_point("before_return");
         Ok(EnvironmentGuard { mutex_guard })
+    }
+}
+
+/// Verification hooks (instrumentation only, feature `verif_hooks`).
+#[cfg(feature = "verif_hooks")]
+pub mod verif {
+    #![allow(missing_docs)]
+    use std::cell::RefCell;
+
+    type Callback = Box<dyn FnMut(&'static str)>;
+
+    thread_local! {
+        static YIELD_CALLBACK: RefCell<Option<Callback>> = const { RefCell::new(None) };
+    }
+
+    /// Installs (or removes) the callback invoked at the yield points of
+    /// `acquire_env` on the current thread.
+    pub fn set_yield_callback(cb: Option<Callback>) {
+        YIELD_CALLBACK.with(|c| *c.borrow_mut() = cb);
+    }
+
+    pub(crate) fn yield_point(name: &'static str) {
+        let cb = YIELD_CALLBACK.with(|c| c.borrow_mut().take());
+        if let Some(mut cb) = cb {
+            cb(name);
+            YIELD_CALLBACK.with(|c| {
+                let mut slot = c.borrow_mut();
+                if slot.is_none() {
+                    *slot = Some(cb);
+                }
+            });
+        }
     }
 }
 
